@@ -256,10 +256,10 @@ func (l *queue) Empty() bool {
 	if l.head == nil || l.tail == nil || len(l.segments) == 0 {
 		return true
 	}
-	if l.head == l.tail && l.head.pos == l.tail.filePos()-footerSize {
-		return true
+	if l.head != l.tail {
+		return false
 	}
-	return false
+	return l.head.empty()
 }
 
 // diskUsage returns the total size on disk used by the queue
@@ -740,6 +740,14 @@ func (l *segment) close() error {
 	}
 	l.file = nil
 	return nil
+}
+
+// empty reports whether every block written to the segment has been advanced
+// past and no appended block is still waiting in the write buffer.
+func (l *segment) empty() bool {
+	l.mu.RLock()
+	defer l.mu.RUnlock()
+	return l.pos == l.size-footerSize && (l.buf == nil || l.buf.Len() == 0)
 }
 
 func (l *segment) lastModified() (time.Time, error) {
